@@ -89,19 +89,21 @@ CfgDomain == {Dom("cfg", Alphabet, MaxLen, MaxDepth, Names)}
 QuickDomains ==
   {Dom("all", AlphaAll, 2, 1, {"f", "g"}), Dom("bind", AlphaBind, 3, 2, {"f", "g"}),
    Dom("cond", AlphaCond \ {<<"with", "-">>, <<"import", "from">>}, 4, 2, {"f"}),
-   Dom("guard", AlphaGuard, 3, 2, {"f", "g"}),
-   Dom("guard-deep", AlphaGuardDeep \ {<<"with", "-">>, <<"else", "elif">>}, 4, 3, {"f"}),
+   Dom("guard", AlphaGuard, 3, 2, {"f"}),
+   Dom("guard-deep", AlphaGuardDeep \ {<<"with", "-">>, <<"else", "elif">>}, 4, 2, {"f"}),
    Dom("deco", AlphaDeco \ {<<"def", "classmethod">>, <<"def", "cache">>, <<"def", "propabstract">>, <<"def", "asyncabstract">>, <<"def", "asynccache">>}, 3, 2, {"f"}),
-   Dom("imp", AlphaImp, 3, 2, {"f"}),
+   Dom("imp", AlphaImp \ {<<"class", "none">>, <<"try", "-">>, <<"except", "-">>}, 3, 2, {"f"}),
    Dom("attr", AlphaAttr \ {<<"assign", "classvar">>, <<"assign", "selfann">>}, 3, 2, {"f", "g"}),
-   DomP("inst", InInit, AlphaInst, 5, 3, {"f"}), DomP("inst2", InInitAfterClassAttr, AlphaInst \ {<<"class", "none">>, <<"init", "-">>}, 6, 3, {"f"})}
+   DomP("inst", InInit, AlphaInst \ {<<"class", "none">>, <<"init", "-">>}, 5, 3, {"f"}),
+   DomP("inst2", InInitAfterClassAttr, AlphaInst \ {<<"class", "none">>, <<"init", "-">>}, 6, 3, {"f"})}
 ThoroughDomainsA ==
   {Dom("all", AlphaAll, 2, 1, {"f", "g"}), Dom("deco", AlphaDeco, 3, 2, {"f", "g"}), Dom("bind", AlphaBind, 4, 2, {"f", "g"}),
    Dom("cond", AlphaCond \ {<<"with", "-">>, <<"import", "from">>}, 5, 2, {"f"}), Dom("imp", AlphaImp, 4, 2, {"f"})}
 ThoroughDomainsB ==
   {Dom("guard-deep", AlphaGuardDeep \ {<<"with", "-">>, <<"else", "elif">>}, 5, 3, {"f"}), Dom("guard", AlphaGuard, 4, 2, {"f"}),
    Dom("attr", AlphaAttr \ {<<"assign", "classvar">>, <<"assign", "selfann">>}, 4, 2, {"f", "g"}), Dom("attr3", AlphaAttr, 3, 2, {"f", "g"}),
-   DomP("inst", InInit, AlphaInst, 6, 3, {"f"}), DomP("inst2", InInitAfterClassAttr, AlphaInst \ {<<"class", "none">>, <<"init", "-">>}, 7, 3, {"f"})}
+   DomP("inst", InInit, AlphaInst \ {<<"class", "none">>, <<"init", "-">>}, 6, 3, {"f"}), DomP("instc", InInit, AlphaInst, 5, 3, {"f"}),
+   DomP("inst2", InInitAfterClassAttr, AlphaInst \ {<<"class", "none">>, <<"init", "-">>}, 7, 3, {"f"})}
 \* small domains in which each known defect shows (Strict = TRUE)
 DefectDomains == {Dom("smoke", AlphaSmoke, 3, 2, {"f"}), Dom("bind", AlphaBind, 3, 2, {"f"})}
 NameOrder == <<"f", "g", "h">>
